@@ -5,7 +5,8 @@
    samples the outages as configured and blocks for the longest one (C02/C10), the release stamps the end and appends the
    job to the post-buffer (C02/C08/C10), a delivery appends the job at the back of the route's destination, empties the AGV, drops the
    claim and blocks the AGV for its longest sampled outage (C07/C10), AGV release (C10), stores change by remove-one/append-one only (C08), the clock
-   does not move inside a transition. *)
+   does not move inside a transition. The dispatch clause (C07/C11) holds of every entry too, up to its readiness conjunct,
+   which is false in some runs (Props/C11.v). *)
 From Coq Require Import List ZArith Bool Arith Lia.
 From JSL Require Import Base.Res Base.ListX SM.Types SM.Util SM.Handler SM.Step SM.Middleware SM.Inv SM.Events
   SMP.ListLemmas SMP.Frame SMP.WF SMP.Preserve SMP.StepInv SMP.Clock SMP.ClockStep SMP.ClockMain SMP.LiftSide SMP.Agv SMP.OutputDone SMP.Post SMP.PostApply SMP.FeasView SMP.Feasible SMP.Offers SMP.Unique SMP.Reflect
@@ -25,7 +26,8 @@ Definition events_ok (x : state) (tr : transition) (y : state) : bool :=
 Fixpoint chain_events (x : state) (lg : mlog) : Prop :=
   match lg with
   | [] => True
-  | (tr, y) :: r => (exists x1, ceq x x1 /\ events_ok x1 tr y = true) /\ chain_events y r
+  | (tr, y) :: r => (exists x1, ceq x x1 /\ events_ok x1 tr y = true
+                                 /\ (ev_dispatch i x1 tr y = true \/ dispatch_ready_conj i x1 tr = false)) /\ chain_events y r
   end.
 
 Theorem apply_events_ok x tr y :
@@ -47,9 +49,12 @@ Proof.
                 (Q9_timed i) (Q9_timed0 i) (Q9_offer i) (offers_ok9 i)
                 _ _ _ _ _ _ _ _ _ _ C (J8_init i _ W Fr Dn Iu Po) (BI_init _ Dn) H Hm) as Hch.
   clear -Hch Hnn. revert Hch. generalize (r_x r). induction lg as [|[tr y] rest IH]; intros x Hch; simpl in *; [exact I|].
-  destruct Hch as [[x1 [Ex [N1 [Hj [_ [_ Ha]]]]]] Hrest].
+  destruct Hch as [[x1 [Ex [N1 [Hj [[R HQ] [_ Ha]]]]]] Hrest].
   split; [|apply IH; exact Hrest]. exists x1. split; [exact Ex|].
-  destruct Hj as [[[_ [[F [Ag _]] _]] _] _]. apply apply_events_ok; auto.
+  destruct Hj as [[[_ [[F [Ag _]] _]] _] _]. split; [apply apply_events_ok; auto|].
+  apply (apply_ev_dispatch sigma i Hnn); auto. intros Htw j Ej Hin.
+  destruct HQ as [[_ [[_ HC] _]] _]. destruct (HC tr (or_introl eq_refl) Htw) as [j' [Ej' Hno]].
+  assert (j' = j) by congruence. subst j'. apply in_claims in Hin. destruct Hin as [t Ht]. exact (Hno t Ht).
 Qed.
 
 End ER.
